@@ -4,8 +4,10 @@ import (
 	"bufio"
 	"bytes"
 	"fmt"
+	"go.pennock.tech/tabular/length"
 	"html/template"
 	"io"
+	"runtime"
 	"sort"
 	"strings"
 
@@ -124,7 +126,7 @@ func c14Run(c *Ctx, i int, r *gen.R) {
 			case 3:
 				return gen.ItemSpec{K: "nil"}
 			}
-			return r.TextItem(c10Fam, 5)
+			return r.TextItemSized(c10Fam, 5, length.StringCells)
 		}})
 	if r.Chance(1, 2) {
 		// headers every renderer accepts (JSON needs unique non-empty keys for every column)
@@ -428,6 +430,21 @@ func c14Run(c *Ctx, i int, r *gen.R) {
 				c.Rec.Count("renders_into_a_panicking_writer_through_a_reused_wrapper", 1)
 				continue
 			}
+			if r.Chance(1, 5) {
+				// the destination ends the goroutine from inside Write (runtime.Goexit - what testing.T.FailNow, Fatal
+				// and Skip do in a test's writer, what a worker does that is told to stop): deferred calls run, recover
+				// sees nothing, RenderTo never returns - and the rest of the program carries on rendering
+				gw := &goexitWriter{k: r.Range(1, 6)}
+				cs.Renders = append(cs.Renders, fmt.Sprintf("%s: RenderTo, in a goroutine of its own, a writer that calls runtime.Goexit in call %d", f.name, gw.k))
+				done := make(chan struct{})
+				go func() {
+					defer close(done)
+					f.to(gw)
+				}()
+				<-done
+				c.Rec.Count("renders_into_a_writer_that_ends_its_goroutine_through_a_reused_wrapper", 1)
+				continue
+			}
 			w := &scriptWriter{k: r.Range(1, 12), mode: r.Intn(c15NModes)}
 			cs.Renders = append(cs.Renders, fmt.Sprintf("%s: RenderTo a writer failing at call %d (%s)", f.name, w.k, c15ModeNames[w.mode]))
 			f.to(w)
@@ -533,6 +550,17 @@ func c14Long(c *Ctx, i int, r *gen.R) {
 
 // panickingWriter accepts k-1 writes and panics in the k-th.
 type panickingWriter struct{ k, calls int }
+
+// goexitWriter accepts k-1 writes and ends the calling goroutine in the k-th.
+type goexitWriter struct{ k, calls int }
+
+func (w *goexitWriter) Write(p []byte) (int, error) {
+	w.calls++
+	if w.calls >= w.k {
+		runtime.Goexit()
+	}
+	return len(p), nil
+}
 
 func (w *panickingWriter) Write(p []byte) (int, error) {
 	w.calls++
